@@ -16,11 +16,12 @@ HEAP = {}
 
 
 class Op:
-    __slots__ = ("name", "fn", "group", "rand", "cb", "pool", "io", "post", "slow")
+    __slots__ = ("name", "fn", "group", "rand", "cb", "pool", "io", "post", "slow", "huge")
 
-    def __init__(self, name, fn, group, rand=False, cb=None, pool=False, io=False, post=None, slow=False):
+    def __init__(self, name, fn, group, rand=False, cb=None, pool=False, io=False, post=None, slow=False, huge=False):
         self.name, self.fn, self.group = name, fn, group
-        self.rand, self.cb, self.pool, self.io, self.post, self.slow = rand, cb, pool, io, post, slow
+        self.rand, self.cb, self.pool, self.io, self.post, self.slow = rand, cb, pool, io, post, slow or huge
+        self.huge = huge  # tens of seconds per execution: thorough tier only
 
 
 def op(group, **kw):
@@ -2554,6 +2555,7 @@ def grid(group, base, fn, axes, cap=40, **flags):
             f = lambda H, inner=inner: inner(H)  # noqa: E731
             fl = {k: v for k, v in flags.items() if k != "cb"}
         f.__name__ = name
+        f._grid_fn = fn
         assert name not in OPS, name
         OPS[name] = Op(name, f, group, **fl)
 
@@ -3158,3 +3160,268 @@ def own_standardized_nf_modified(H):
     out = prs.standardize_dataframe(H["df_raw_nonfunctional"], tcr_enforce_functional=False, suppress_warnings=True)
     out.iloc[:, :] = "changed"
     return None
+
+
+# =============================================================================================
+# The caller modifies ITS OWN object between two calls (legal; a cache keyed by id() or by a partial key goes stale).
+# MUTATIONS[name](obj) changes the heap object in place to one fixed new state (idempotent).  Objects held inside a
+# library object (DEPENDS) are not targets: changing a database's reference list after the build is outside every claim.
+# =============================================================================================
+def _m_seqs_list(o):
+    o[:] = ["CASSLGQAYEQYW", "CASSLGQAYEQF", "CASSLAQAYEQYF", "CASSPGQAYEQYF", "CASSLGQAYEQYW", "CAWSVGTDTQYF",
+            "CAWSVGSDTQYF", "CSARDRGNTIYF", "CASSLGQAYEQY", "CASRLGQAYEQYF", "CASRLGQAYEQYW"]
+
+
+def _m_seqs_arr(o):
+    o[1] = "CDDD"
+    o[6] = "CAK"
+
+
+def _m_counts_arr(o):
+    o[0] = 3
+    o[7] = 6
+
+
+def _m_df_stats(o):
+    o.loc[22, "b"] = "r"
+    o.loc[25, "a"] = "y"
+    o.loc[29, "group"] = "g3"
+
+
+def _m_df_tcr(o):
+    o.loc[102, "CDR3B"] = "CASSDRAQPQHF"
+    o.loc[105, "CDR3A"] = "CAVNGGSQGNLF"
+
+
+def _m_df_cluster(o):
+    o.loc[42, "cdr3b"] = "CASSDRAQPQHF"
+    o.loc[45, "epitope"] = "e3"
+
+
+def _m_ref_set(o):
+    o.discard("CAAA")
+    o.add("CKKK")
+
+
+def _m_seqs_set(o):
+    o.discard("CDDD")
+    o.add("CAAD")
+
+
+def _m_dict_cluster(o):
+    o["t"] = 5
+
+
+def _m_dict_linkage(o):
+    o["method"] = "single"
+
+
+def _m_list_on(o):
+    o[:] = ["a", "group"]
+
+
+def _m_triplets_arr(o):
+    o[4] = [3, 5, 2]
+    o[5] = [5, 3, 2]
+
+
+def _m_nodes_list(o):
+    o[2] = "renamed"
+
+
+def _m_seqs_series(o):
+    o.iloc[0] = "CKKK"
+    o.iloc[3] = "CAAA"
+
+
+def _m_counts_list(o):
+    o[1] = 4
+
+
+def _m_bins_arr(o):
+    o[-1] = 14
+
+
+def _m_seqs_list2(o):
+    o[2] = "CASSLGQAYEQYF"
+
+
+def _m_many_labels(o):
+    o[:] = ["L%02d" % (i % 23) for i in range(40)]
+
+
+def _m_df_raw(o):
+    o.loc[1, "TRBV"] = "TRBV9*01"
+
+
+def _m_seqs_list_b(o):
+    o[3] = "CASSLGQAYEQYF"
+
+
+def _m_df_beta(o):
+    o.loc[6, "CDR3B"] = "CASSDRAQPQHF"
+
+
+def _m_weights_arr(o):
+    o[0] = 3.0
+
+
+# =============================================================================================
+# inputs beyond typical size thresholds (a few hundred / a thousand elements); the expensive ones are thorough-only
+# =============================================================================================
+@heap
+def seqs_1100():
+    base, aa = "CASSLGQAYEQYF", "ACDEFGHIKLMNPQRSTVWY"
+    out = []
+    for i in range(1100):
+        j, k = i % len(base), (i * 7) % 20
+        t = base[:j] + aa[k] + base[j + 1:]
+        j2, k2 = (i * 3) % len(base), (i * 11) % 20
+        out.append(t[:j2] + aa[k2] + t[j2 + 1:])
+    return out
+
+
+@heap
+def df_1100(H):
+    s_ = H["seqs_1100"]
+    return pd.DataFrame({"cdr3b": s_, "cdr3a": [x[::-1] for x in s_], "group": ["g%d" % (i % 7) for i in range(len(s_))],
+                         "a": [x[4] for x in s_], "b": [x[7] for x in s_]})
+
+
+@op("kdtree")
+def large_kdtree(H):
+    r = prs.kdtree(H["seqs_1100"], max_edits=1)
+    return [len(r), sorted(r)[:50]]
+
+
+@op("kdtree", pool=True)
+def large_kdtree_ncpu4(H):
+    r = prs.kdtree(H["seqs_1100"], max_edits=1, n_cpu=4, compression=2)
+    return [len(r), sorted(r)[:50]]
+
+
+@op("symdel")
+def large_symdel(H):
+    r = prs.symdel(H["seqs_1100"], max_edits=1)
+    r2 = prs.symdel(H["seqs_1100"][:600], max_edits=1, seqs2=H["seqs_1100"][500:])
+    return [len(r), sorted(r)[:50], len(r2), sorted(r2)[:50]]
+
+
+@op("pcDelta")
+def large_pcDelta(H):
+    return [prs.pcDelta(H["seqs_1100"]), prs.pc(H["seqs_1100"]), prs.pc(H["df_1100"][["a", "b"]]), prs.pc_joint(H["df_1100"], ["a", "b"])]
+
+
+@op("pcDelta", rand=True)
+def large_pcDelta_maxseqs(H):
+    return [prs.pcDelta(H["seqs_1100"], maxseqs=1000), prs.downsample(H["seqs_1100"], 1050)[:20], prs.downsample(H["df_1100"], 1001).index[:20]]
+
+
+@op("entropy")
+def large_entropy(H):
+    return [prs.renyi2_entropy(H["df_1100"], "a"), prs.renyi2_entropy(H["df_1100"], ["a", "b"], by="group"),
+            prs.pc_conditional(H["df_1100"], "group", "a"), prs.pc_grouped_cross(H["df_1100"], "group", "a")]
+
+
+@op("graph")
+def large_graph(H):
+    r = np.array(prs.symdel(H["seqs_1100"], max_edits=1))
+    return [prs.graph_clustering(r, H["seqs_1100"])["cluster"].nunique(), prs.graph_clustering(r, H["seqs_1100"], clustering="DBSCAN").shape]
+
+
+@op("rankfreq")
+def large_rankfrequency(H):
+    return pp.rankfrequency(np.arange(1, 5001) % 997 + 1)
+
+
+@op("density")
+def large_density(H):
+    t = np.arange(5000, dtype=float)
+    return pp.density_scatter(np.sin(t / 30.0) * 5 + t / 1000.0, np.cos(t / 40.0) * 3 + (t % 7), bins=30)
+
+
+@op("colors", rand=True)
+def large_colors(H):
+    lab = ["c%d" % (i % 1050) for i in range(1100)]
+    return [pp.labels_to_colors_hls(lab)[:30], pp.labels_to_colors_tableau(lab, min_count=2)[:60]]
+
+
+@op("metric")
+def large_metric(H):
+    m = H["metric_lev"].calc_cdist_matrix(H["seqs_1100"], H["seqs_list"])
+    return [m.shape, m[:5], prs.pdist(H["seqs_1100"][:400])[:40]]
+
+
+@op("hclust", huge=True)
+def huge_hclust(H):
+    linkage, cluster = prs.hierarchical_clustering(H["seqs_1100"][:1001])
+    return [linkage[:20], cluster[:50]]
+
+
+@op("clustermap", rand=True, huge=True)
+def huge_clustermap(H):
+    cg, linkage, cluster = pp.similarity_clustermap(H["df_1100"].iloc[:1001], alpha_column=None)
+    return [linkage[:20], cluster[:50]]
+
+
+def _m_ref_list(o):
+    o[0] = "CKKK"
+    o.append("CAAF")
+
+
+@heap
+def ref_list():
+    return ["CAAA", "CADA", "CAAK", "CDKD", "CAKK", "CAA"]
+
+
+def _g_nndist_list(H, seq, maxdist):
+    ref = H["ref_list"]
+    return [prs.isdist1(seq, ref), prs.nndist_hamming(seq, ref, maxdist=maxdist)]
+
+
+grid("neighbors", "g_nndist_list", _g_nndist_list,
+     dict(seq=[("CAAA", "CAAA"), ("CADD", "CADD"), ("CKKA", "CKKA"), ("CAAF", "CAAF")], maxdist=[("1", 1), ("2", 2), ("3", 3)]), cap=8)
+
+
+MUTATIONS = {k[3:]: v for k, v in list(globals().items()) if k.startswith("_m_")}
+
+
+def _template_uses():
+    """Which heap objects each template reads (static: source text of hand-written templates, parameters of grid templates)."""
+    import inspect
+    import re
+
+    uses = {}
+    for name, o in OPS.items():
+        names = set()
+        fn = o.fn
+        try:
+            src = inspect.getsource(fn)
+        except (OSError, TypeError):
+            src = ""
+        names |= set(re.findall(r'H\["([A-Za-z0-9_]+)"\]', src))
+        if hasattr(fn, "_grid_fn"):
+            try:
+                names |= set(re.findall(r'H\["([A-Za-z0-9_]+)"\]', inspect.getsource(fn._grid_fn)))
+            except (OSError, TypeError):
+                pass
+        defaults = getattr(fn, "__defaults__", None) or ()
+        for d in defaults:
+            inner = getattr(d, "__closure__", None)
+            if inner:
+                for cell in inner:
+                    try:
+                        v = cell.cell_contents
+                    except ValueError:
+                        continue
+                    if isinstance(v, dict):
+                        for pv in v.values():
+                            if isinstance(pv, str) and pv.startswith("H:"):
+                                names.add(pv[2:])
+                            elif isinstance(pv, str) and pv in HEAP:
+                                names.add(pv)
+        uses[name] = names
+    return uses
+
+
+USES = _template_uses()
